@@ -125,6 +125,23 @@ Definition apply_unexpanded_args (op : node) : bool :=
   | _ => false
   end.
 
+(** [F.apply(T, X, extra...)]: [apply] ignores what follows its second argument; handing those values to the hook
+    as operands of the call says the call received them. *)
+Definition apply_extra_args (op : node) : bool :=
+  match op with
+  | Node (K KCall _ _) [_; Node (K KMember _ _) [_; prop]; Node Lst (this :: second :: _ :: _); _] =>
+      match ident_name_sym prop with
+      | Some "apply" => negb (arg_is_spread this) && negb (arg_is_spread second)
+      | _ => false
+      end
+  | _ => false
+  end.
+
+(** A regular-expression literal among the operands: every evaluation of the literal creates a new object, so the
+    hook is handed another object than the one the operation used. *)
+Definition regex_operand (args : list node) : bool :=
+  existsb (fun a => match arg_expr a with Some e => is_kind KRegex e | None => false end) args.
+
 (** Each operand is evaluated once, for itself: two operands never share an injected temporary (that
     would pass the value of one evaluation in the place of another one, which was omitted). *)
 Fixpoint has_dup_str (l : list string) : bool :=
@@ -146,6 +163,8 @@ Fixpoint shape_issues (vp : string) (n : node) : list string :=
        | Some op =>
            (if arg_is_spread a0 then ["spread-result"] else []) ++
            (if has_dup_str (operand_temps vp rest) then ["operand-temporary-shared"] else []) ++
+           (if apply_extra_args op then ["apply-extra-arguments-passed"] else []) ++
+           (if regex_operand rest then ["regex-literal-operand-duplicated"] else []) ++
            match expected_of_operation op with
            | Some ex => if apply_spread_args op then ["apply-spread-args"]
                         else if apply_unexpanded_args op then ["apply-args-not-expanded"]
